@@ -63,7 +63,7 @@ pub fn run(short: bool) -> Result<serde_json::Value, String> {
         // each thread has n ops + the thread-end switch; interleavings of n ops each, times the
         // choice of who starts is included: C(2n, n).
         let want = binom(2 * n, n);
-        check(&format!("count_unbounded_{}", n), r.violation.is_none() && r.stats.executions == want, format!("executions {} want {}", r.stats.executions, want))?;
+        check(&format!("count_unbounded_{}", n), r.violations.is_empty() && r.stats.executions == want, format!("executions {} want {}", r.stats.executions, want))?;
         let r0 = explore(&s, &cfg(Some(0)))?;
         check(&format!("count_bound0_{}", n), r0.stats.executions == 2, format!("executions {} want 2", r0.stats.executions))?;
         let r1 = explore(&s, &cfg(Some(1)))?;
@@ -100,8 +100,8 @@ pub fn run(short: bool) -> Result<serde_json::Value, String> {
             th("b", move |s| { if s.x.load(o_ld) == 1 { sched::exec_access(0xd00d, false, "data_read"); } }),
         ], |_| 0);
         let r = explore(&s, &cfg(None))?;
-        let raced = r.violation.as_ref().map_or(false, |v| v.message.contains("data race"));
-        check(name, raced == expect_race, format!("violation {:?}", r.violation.as_ref().map(|v| &v.message)))?;
+        let raced = r.violations.first().map_or(false, |v| v.message.contains("data race"));
+        check(name, raced == expect_race, format!("violation {:?}", r.violations.first().map(|v| &v.message)))?;
     }
     // 5. deadlock AB/BA
     {
@@ -110,7 +110,7 @@ pub fn run(short: bool) -> Result<serde_json::Value, String> {
             th("b", |s| { let _g2 = s.m2.lock().unwrap(); let _g1 = s.m1.lock().unwrap(); }),
         ], |_| 0);
         let r = explore(&s, &cfg(None))?;
-        check("deadlock_abba", r.violation.as_ref().map_or(false, |v| v.message.contains("deadlock")), format!("{:?}", r.violation.as_ref().map(|v| &v.message)))?;
+        check("deadlock_abba", r.violations.first().map_or(false, |v| v.message.contains("deadlock")), format!("{:?}", r.violations.first().map(|v| &v.message)))?;
     }
     // 6. livelock: spin on a flag nobody sets
     {
@@ -119,14 +119,14 @@ pub fn run(short: bool) -> Result<serde_json::Value, String> {
             th("b", |s| { s.y.store(1, Ordering::SeqCst); }),
         ], |_| 0);
         let r = explore(&s, &cfg(Some(1)))?;
-        check("livelock_spin", r.violation.as_ref().map_or(false, |v| v.message.contains("livelock")), format!("{:?}", r.violation.as_ref().map(|v| &v.message)))?;
+        check("livelock_spin", r.violations.first().map_or(false, |v| v.message.contains("livelock")), format!("{:?}", r.violations.first().map(|v| &v.message)))?;
         // ... and a spin that is released terminates under fair scheduling
         let s = scen("spin_released", Opts::default(), vec![
             th("a", |s| { while s.x.load(Ordering::SeqCst) == 0 { signal_hook_registry::verif::thread::yield_now(); } }),
             th("b", |s| { s.y.store(1, Ordering::SeqCst); s.x.store(1, Ordering::SeqCst); }),
         ], |_| 0);
         let r = explore(&s, &cfg(None))?;
-        check("spin_released", r.violation.is_none() && r.stats.executions > 1, format!("{:?} execs {}", r.violation.as_ref().map(|v| &v.message), r.stats.executions))?;
+        check("spin_released", r.violations.is_empty() && r.stats.executions > 1, format!("{:?} execs {}", r.violations.first().map(|v| &v.message), r.stats.executions))?;
     }
     // 7. nested signal at every boundary of a 5-step thread => 6 arrival points (incl. before thread end)
     {
@@ -146,7 +146,7 @@ pub fn run(short: bool) -> Result<serde_json::Value, String> {
         let r = explore(&s, &cfg(Some(1)))?;
         let mut d: Vec<u64> = r.stats.digests.iter().copied().collect();
         d.sort();
-        check("nested_points", r.violation.is_none() && d == vec![0, 1, 2, 3, 4, 99], format!("arrival points {:?} execs {}", d, r.stats.executions))?;
+        check("nested_points", r.violations.is_empty() && d == vec![0, 1, 2, 3, 4, 99], format!("arrival points {:?} execs {}", d, r.stats.executions))?;
     }
     let _ = Summary::clone;
     Ok(serde_json::Value::Array(report))
